@@ -153,6 +153,21 @@ def run_shard(spec):
             res["violations"].extend(vs)
             res["evaluations"] += 1
             res["distinct"].append(f"pair|{spec['part']}|{i}")
+        # the end of the file: the last statement with and without a final newline, followed by blanks, tabs or a comment
+        for i in range(8 if spec["tier"] == "quick" else 80):
+            body = [".link 2000", "eofa:\tmov #5, r0"] + [rnd.choice(["\tclr (r1)+", "\tadd r0, r2", "\t.word 1, 2", "\t.byte 3, 4"]) for _ in range(rnd.randrange(0, 3))] + ["eofb = 7"]
+            last = rnd.choice(["\tclr (r3)+", "\tmov (r1)+, (r2)+", "\tcmp -(r4), @(r5)+", "\tmov r0, r1", "\tjmp eofa", "\tmov #5, eofa", "\t.word 1, eofa", "\tnop",
+                               "\t.even", "\t.blkw 2", "\tbr eofa", "\tsob r1, eofa", "\tmov 2(r1), @#eofa", "\t.byte 1, 2", "\tinc @eofa", "eofc:", "eofd = 5",
+                               "\t.word <1 + 2>", "\tmov #'a, r0", "\t.ascii \"ab\"", "\temt 5", "\trts pc"])
+            tail = rnd.choice([" ", "  ", "\t", " \t ", "", " ; end", "\t;", "\n\n", "\n  ", "\n\t\n ", " \n", "\r\n", "\n; end"])
+            fa = [["f0.mac", "\n".join(body + [last]) + "\n"]]
+            fb = [["f0.mac", "\n".join(body + [last]) + tail]]
+            case = {"kind": "pair", "a": fa, "b": fb, "style_seed": 0, "what": "end of file"}
+            vs, ndiff = run_case(case, cnt, root)
+            res["violations"].extend(vs)
+            res["evaluations"] += 1
+            cnt["end_of_file_pairs"] = cnt.get("end_of_file_pairs", 0) + 1
+            res["distinct"].append(f"eof|{last}|{tail!r}")
         repo = os.environ.get("VERIF_REPO", "/repo")
         dirs = sorted(glob.glob(os.path.join(repo, "tests", "practice", "*", "")))
         for j, d in enumerate(dirs):
@@ -190,10 +205,11 @@ def run_case(case, cnt=None, root=None):
             if "stall" in (oa.cls, ob.cls):
                 return (out, 0) if not own else out
             cnt["variants_compared"] += 1
-            cnt["register_expression_pairs"] = cnt.get("register_expression_pairs", 0) + 1
+            if "what" not in case:
+                cnt["register_expression_pairs"] = cnt.get("register_expression_pairs", 0) + 1
             if oa.cls != "ok" or meta.observable(oa) != meta.observable(ob):
-                out.append({"what": f"register spellings: 'rN' form gives {meta.describe(oa)}, '%expr' form gives {meta.describe(ob)} ({[e['id'] for e in ob.errors][:3]}); "
-                                    f"'%' files: {[tx for _n, tx in case['b']]}"[:1500], "case": case})
+                out.append({"what": f"{case.get('what', 'register spellings')}: first form gives {meta.describe(oa)}, second form gives {meta.describe(ob)} "
+                                    f"({[e['id'] for e in ob.errors][:3]}); second form's files: {[tx for _n, tx in case['b']]}"[:1500], "case": case})
             return (out, 1) if not own else out
         if case["kind"] == "gen":
             prog = apm.from_json(case["prog"])
